@@ -37,7 +37,9 @@ CONSTANTS NOps,        \* operations (APDUs, presence checks) per run           
           PFates,      \* fates on the way to the PCD besides "deliver": subset of {"lose","corrupt","empty"}
           CFates,      \* fates on the way to the card besides "deliver": subset of {"lose","corrupt"}
           WithPing,    \* presence checks (R(NAK)) between APDUs
-          Variant      \* "asis" | "fixed" | "any"
+          Variant,     \* "asis" | "fixed" | "any"
+          Apis         \* subset of BOOLEAN: TRUE = the exchange is wrapped by send_apdu() (tt4.py: a response shorter
+                       \* than the 2 byte status word is a PROTOCOL_ERROR), FALSE = transceive()
 
 VARIABLES cfg,         \* [miu, rmiu, fsc, nRetry]  (constant during a run)
           pcd,         \* PCD record
@@ -74,7 +76,8 @@ Fixed == Variant \in {"fixed", "any"}
 \* ------------------------------------------------------------------------------- PCD
 PcdInit == [ph |-> "idle", op |-> "none", pni |-> 0, cur |-> 0, L |-> 0, off |-> 0, i |-> 0, out |-> NoBlk,
             tmo |-> 0, resp |-> <<>>, errno |-> 0, rtype |-> "",
-            wc |-> FALSE]        \* as-is only: an S(WTX) request was taken for a block of the chained response
+            wc |-> FALSE,
+            sa |-> FALSE, tot |-> 0]   \* sa: called through send_apdu(); tot: INF bytes of the response so far        \* as-is only: an S(WTX) request was taken for a block of the chained response
 
 \* tt4.py:88-91  pfb + command[offset:offset+miu]
 PcdI(p, c) == LET rem == p.L - p.off IN
@@ -83,6 +86,9 @@ More(p, c) == p.L - p.off > c.miu
 Fail(p, e)  == [p EXCEPT !.ph = "err", !.errno = e, !.out = NoBlk, !.tmo = 0]
 Raise(p, t) == [p EXCEPT !.ph = "raise", !.rtype = t, !.out = NoBlk, !.tmo = 0]
 ErrnoOf(k) == IF k = "timeout" THEN TIMEOUT ELSE RECEIVE      \* empty answer -> TransmissionError, tt4.py:96
+
+\* exchange() returns; send_apdu(): `if not apdu or len(apdu) < 2: raise Type4TagCommandError(PROTOCOL_ERROR)`
+Finish(q) == IF q.sa /\ q.tot < 2 THEN Fail(q, PROTOCOL) ELSE [q EXCEPT !.ph = "ret", !.out = NoBlk]
 
 \* tt4.py:125-141  the code after the S(WTX) loop (b is not an S(WTX) block)
 AfterWtx(p, c, b) ==
@@ -93,9 +99,9 @@ AfterWtx(p, c, b) ==
               [q EXCEPT !.out = PcdI(q, c), !.i = 1, !.ph = "cmd", !.tmo = 0]
          ELSE Fail(p, PROTOCOL)
     ELSE IF b.t = "I"
-         THEN LET q == [p EXCEPT !.pni = 1 - p.pni, !.resp = <<Chunk(b)>>, !.tmo = 0] IN
+         THEN LET q == [p EXCEPT !.pni = 1 - p.pni, !.resp = <<Chunk(b)>>, !.tot = b.len, !.tmo = 0] IN
               IF b.ch THEN [q EXCEPT !.ph = "chain", !.out = RAck(q.pni), !.i = 1]
-              ELSE [q EXCEPT !.ph = "ret", !.out = NoBlk]
+              ELSE Finish(q)
          ELSE Fail(p, PROTOCOL)
 
 When(cond, S) == IF cond THEN S ELSE {}
@@ -131,8 +137,8 @@ RxChainErr(p, c, r) ==
     IF p.i <= c.nRetry THEN [p EXCEPT !.out = RAck(p.pni), !.i = p.i + 1, !.tmo = 0] ELSE Fail(p, ErrnoOf(r.k))
 RxChainBlk(p, c, b) ==
     IF b.bn # p.pni THEN Fail(p, PROTOCOL)
-    ELSE LET q == [p EXCEPT !.pni = 1 - p.pni, !.resp = Append(p.resp, Chunk(b)), !.tmo = 0] IN
-         IF Bit4(b) THEN [q EXCEPT !.out = RAck(q.pni), !.i = 1] ELSE [q EXCEPT !.ph = "ret", !.out = NoBlk]
+    ELSE LET q == [p EXCEPT !.pni = 1 - p.pni, !.resp = Append(p.resp, Chunk(b)), !.tot = p.tot + b.len, !.tmo = 0] IN
+         IF Bit4(b) THEN [q EXCEPT !.out = RAck(q.pni), !.i = 1] ELSE Finish(q)
 \* as-is: an S(WTX) request is taken for a data block; fixed: it is answered (inside the try) and the loop goes on
 RxChain(p, c, r) ==
     IF r.k # "blk" THEN {RxChainErr(p, c, r)}
@@ -156,9 +162,9 @@ Terminal(p) == p.ph \in {"idle", "ret", "err", "raise", "false"}
 Failed(p) == p.ph \in {"err", "raise"}
 
 \* exchange() entered
-PcdStart(p, c, op, a, L) ==
+PcdStart(p, c, op, a, L, sa) ==
     LET q == [p EXCEPT !.op = op, !.cur = a, !.L = L, !.off = 0, !.i = 1, !.resp = <<>>, !.errno = 0,
-                       !.rtype = "", !.tmo = 0, !.wc = FALSE] IN
+                       !.rtype = "", !.tmo = 0, !.wc = FALSE, !.sa = sa, !.tot = 0] IN
     IF op = "ping" THEN [q EXCEPT !.ph = "ping", !.out = RNak(p.pni)]
     ELSE [q EXCEPT !.ph = "cmd", !.out = PcdI(q, c)]
 
@@ -216,16 +222,16 @@ Init ==
     /\ exec = <<>> /\ garbage = 0
     /\ nops = 0 /\ faults = 0 /\ nwtx = 0 /\ xf = 0 /\ dirty = FALSE
 
-StartOp(op, L, R) ==
+StartOp(op, L, R, sa) ==
     /\ Terminal(pcd) /\ slot.k = "none" /\ nops < NOps
     /\ nops' = nops + 1
-    /\ pcd' = PcdStart(pcd, cfg, op, nops + 1, L)
+    /\ pcd' = PcdStart(pcd, cfg, op, nops + 1, L, sa)
     /\ cl' = Append(cl, L) /\ rl' = Append(rl, R) /\ exec' = Append(exec, 0)
     /\ xf' = 0 /\ dirty' = (dirty \/ Failed(pcd))
     /\ UNCHANGED <<cfg, picc, slot, garbage, faults, nwtx>>
 
-Start == \/ \E L \in CLens, R \in RLens : StartOp("apdu", L, R)
-         \/ WithPing /\ pcd.op # "ping" /\ StartOp("ping", 0, 0)
+Start == \/ \E L \in CLens, R \in RLens, sa \in Apis : StartOp("apdu", L, R, sa)
+         \/ WithPing /\ pcd.op # "ping" /\ StartOp("ping", 0, 0, FALSE)
 
 Send ==
     /\ Active(pcd) /\ slot.k = "none"
